@@ -403,10 +403,14 @@ class OscMessageDispatcher(AbstractWrappingDispatcher):
 class OscMessagePatternDispatcher(OscMessageDispatcher):
     def __call__(self, msg, time, addr, recv_port):
         pattern = msg[0]
-        for key, funcs in self.active.copy().items():
-            if _match_osc_address_pattern(pattern, key):
-                for func in funcs.copy():
-                    fn.value(func, msg, time, addr, recv_port)
+        matched = [
+            key for key in self.active.copy()
+            if _match_osc_address_pattern(pattern, key)]
+        # wrapped_funcs keeps the responders in the order of their current
+        # registration, whatever their paths.
+        for func_proxy, func in list(self.wrapped_funcs.items()):
+            if func_proxy.path in matched:
+                fn.value(func, msg, time, addr, recv_port)
 
     def type_key(self):
         return 'OSC matched'
